@@ -152,6 +152,9 @@ func diffPost(accs, invs []string, m, r *Post) string {
 		if m.Req[a] != r.Req[a] {
 			d = append(d, fmt.Sprintf("req[%s] model=%s code=%s", a, m.Req[a], r.Req[a]))
 		}
+		if m.Rgen[a] != r.Rgen[a] {
+			d = append(d, fmt.Sprintf("request generation[%s] model=%d code=%d", a, m.Rgen[a], r.Rgen[a]))
+		}
 	}
 	for _, i := range invs {
 		if m.Inv[i] != r.Inv[i] {
